@@ -61,4 +61,10 @@ CHECKS = {
             sim_stage(1500, 20000),
         ],
     },
+    "C06": {
+        "pkg": "c06", "level": "exploration",
+        "rule": "model-based stateful test: rapid generates an op list (open+first write / write / close-with-compaction / update of a closed run / rename / age a file with chtimes / removeOld(days) / removeAll) over 2..4 DAG files drawn from a hostile name pool (spaces, dots, glob metacharacters [ ] * ? \\ { }, shared prefixes, the _c compaction suffix, same base name in two directories, .yml, non-ASCII), start times same-second / same-minute / across midnight / days apart, payloads with quotes/newlines and lines beyond the 4096-byte buffer; after EVERY op the full query set (FindByRequestID for every recorded, unknown and foreign id; ReadStatusRecent n=1,2,all; ReadStatusToday) is compared, on every DAG, through a long-lived reader instance and a fresh instance, with an in-memory reference model. Non-trivial: >=2 DAGs with recorded runs AND (two runs within one second OR a hostile name OR an update/rename/retention/interleaved write). Distinct: hash of the op list.",
+        "assumptions": ["request ids are unique in their first 8 characters (the file name keeps only 8)", "one open run per DAG (C16); updates address closed runs (the API refuses edits while running)", "retention is defined on file mtime, ages are generated >=1h away from the boundary", "process time zone UTC; a case during which the calendar date changes is discarded"],
+        "stages": [sim_stage(300, 4000, shrinktime="30s", env={"TZ": "UTC"})],
+    },
 }
